@@ -82,6 +82,11 @@ func explore() {
 				continue
 			}
 			k = fmt.Sprintf("%-70s ref=%-5s g=%-5s", p.Class, rs[i].ref, a["g"])
+		case "lax":
+			if a["lax"] == "" || a["lax"] == "none" {
+				continue
+			}
+			k = fmt.Sprintf("%-28s %-60s y=%-7s g=%-7s impl=%-5s ref=%-5s", a["lax"], p.Class, a["y"], a["g"], rs[i].impl, rs[i].ref)
 		case "abstain":
 			if a["y"] != "abstain" && a["g"] != "abstain" {
 				continue
